@@ -383,7 +383,7 @@ def block_division(ctx, fx):
         pb = [S(e) for _, e in fn.events(is_call(name="push_back"))]
         if not pb or "(i + 1)" not in pb[0]:
             det.append("default prefix %s" % pb)
-        loops = [S(lit(b["term"]["cond"])[0]) for b in fn.blocks.values() if (b.get("term") or {}).get("cls") == "ForStmt"]
+        loops = [S(lit(b["term"]["cond"])[0]) for b in fn.blocks.values() if (b.get("term") or {}).get("cls") in ("ForStmt", "WhileStmt")]
         if loops != ["(i < numDivisions)"] * len(loops) or len(loops) != 2:
             det.append("loops %s" % loops)
         ctx.ob("C13.scale.prefix-sum", f["qn"], not det, "; ".join(det), fn.loc(), "scale", fnkey=f["key"])
